@@ -220,6 +220,14 @@ def _is_const_expr(e):
         return all(_is_const_expr(x) for x in e.elts)
     if isinstance(e, ast.Dict):
         return all(k is not None and _is_const_expr(k) for k in e.keys) and all(_is_const_expr(v) for v in e.values)
+    # rows of a dispatch table: references to classes / functions of other modules (`parsetree.DefTag`) and lambdas without
+    # free local state are fixed once the class body has run
+    if isinstance(e, ast.Attribute) and isinstance(e.value, ast.Name) and e.attr[:1].isupper():
+        return True
+    if isinstance(e, ast.Lambda) and not e.args.defaults and not e.args.kw_defaults:
+        params = {a.arg for a in e.args.posonlyargs + e.args.args + e.args.kwonlyargs}
+        free = {n.id for n in ast.walk(e.body) if isinstance(n, ast.Name)} - params
+        return not free
     return False
 
 
@@ -294,6 +302,13 @@ class _Fold(ast.NodeTransformer):
 
     def visit_Call(self, node):
         self.generic_visit(node)
+        # (lambda a, b: E)(x, y)  ->  E[a := x, b := y]   (plain arguments)
+        if isinstance(node.func, ast.Lambda) and not node.keywords and not node.func.args.vararg and not node.func.args.kwarg and not node.func.args.defaults \
+                and len(node.args) == len(node.func.args.args) and not node.func.args.posonlyargs and not node.func.args.kwonlyargs and all(_simple_arg(a) for a in node.args):
+            body = copy.deepcopy(node.func.body)
+            for p, a in zip(node.func.args.args, node.args):
+                body = _SubstName(p.arg, a).visit(body)
+            return ast.fix_missing_locations(ast.copy_location(body, node))
         if isinstance(node.func, ast.Name) and node.func.id == "len" and len(node.args) == 1 and not node.keywords and isinstance(node.args[0], ast.Constant) and isinstance(node.args[0].value, (str, bytes)):
             return ast.copy_location(ast.Constant(value=len(node.args[0].value)), node)
         # getattr(x, '<name>') -> x.<name>
